@@ -92,7 +92,7 @@ Tree(sh, isIndex, stale, pattern, ovf) ==
                      ov |-> IF ovf /\ i % 2 = 1 THEN <<1000 + i>> ELSE IF ovf /\ i % 4 = 0 THEN <<1000 + i, 2000 + i>> ELSE <<>>]]]
 
 Base0 == [op |-> "", root |-> 2, rowid |-> IntVal(0), key |-> <<>>, to |-> <<>>, stop |-> 0, fail |-> 0,
-          pro |-> "none", lockfail |-> FALSE, nested |-> "", troot |-> 0, pkcols |-> <<>>, pkdef |-> <<>>]
+          pro |-> "none", lockfail |-> FALSE, nested |-> "", troot |-> 0, pkcols |-> <<>>, pkdef |-> <<>>, nolock |-> FALSE]
 
 K1(v) == <<[v |-> IntVal(v), coll |-> "binary", desc |-> FALSE]>>
 K2(v, w) == <<[v |-> IntVal(v), coll |-> "binary", desc |-> FALSE], [v |-> IntVal(w), coll |-> "binary", desc |-> FALSE]>>
